@@ -331,8 +331,12 @@ impl ValueParser {
             None
         });
 
-        let enumerator =
-            discr_value.and_then(|v| enumerators.get(&Some(v)).or_else(|| enumerators.get(&None)));
+        let enumerator = if discr_member.is_none() && enumerators.len() == 1 {
+            // an enum with a single variant has no discriminant
+            enumerators.values().next()
+        } else {
+            discr_value.and_then(|v| enumerators.get(&Some(v)).or_else(|| enumerators.get(&None)))
+        };
 
         let enumerator = enumerator.and_then(|member| {
             Some(Box::new(self.parse_struct_member(
